@@ -62,9 +62,11 @@ def mc_configs(tier):
             ("mc_core3", consts(Entries={2}, Kinds={"read", "write", "cancel"}, LatChoices={0, 1}, MaxOps=3, MaxTicks=2)),
             ("mc_fsync_crash3", consts(Entries={2}, Kinds={"write", "fsync", "cancel"}, LatChoices={0, 2},
                                        CtlOps={"crash"}, MaxOps=3, MaxTicks=2, MaxCrash=1)),
-            ("mc_2rings", consts(Entries={1}, Kinds={"write", "read", "cancel"}, LatChoices={1}, CtlOps={"dropring"},
-                                 MaxRings=2, MaxOps=3, MaxTicks=2)),
-            ("mc_2files", consts(NF=2, Entries={4}, Kinds={"write", "read"}, LatChoices={0, 1}, CtlOps={"close", "shimw"},
+            # two rings on one host: per-ring SQ / completions, cancel across rings misses, one ring dropped
+            ("mc_2rings", consts(Entries={1, 2}, Kinds={"write", "read", "cancel"}, LatChoices={0, 1}, CtlOps={"dropring"},
+                                 MaxRings=2, MaxOps=2, MaxTicks=2)),
+            # two files, shim writes in between, three entries
+            ("mc_2files", consts(NF=2, Entries={2}, Kinds={"write", "read"}, LatChoices={0, 1}, CtlOps={"shimw"},
                                  MaxOps=3, MaxTicks=1)),
         ]
     return cfgs
@@ -84,7 +86,7 @@ def gen_configs(tier):
             ("gen_lat0", consts(Entries={2}, Kinds={"read", "write", "cancel"}, LatChoices={0}, CtlOps={"shimw"},
                                 MaxOps=3, MaxTicks=1, GenLen=7), 0),
             ("gen_lat2", consts(Entries={2, 3}, Kinds={"write", "fsync", "cancel"}, LatChoices={2}, CtlOps={"crash"},
-                                MaxOps=3, MaxTicks=3, MaxCrash=1, GenLen=8), 2),
+                                MaxOps=3, MaxTicks=3, MaxCrash=1, GenLen=7), 2),
         ]
     return cfgs
 
